@@ -13,6 +13,19 @@ VALS = SCALARS + PODS
 ELEMS = ["u8", "u16", "u32", "u64", "i64", "Pod1", "Pod2", "Unit0", "f64"]
 # T for Option<T> that cannot use the null-pointer optimisation
 OPT_INNER = ["u8", "u32", "u64", "usize", "i16", "bool", "f64", "Pod1", "char"]
+# When set, only leaf types that rustc's improper_ctypes lint accepts are generated (`char` is
+# not C-representable by the compiler's own rules), as C03's precondition demands.
+FFI_STRICT = False
+
+
+def _vals():
+    return [v for v in VALS if not (FFI_STRICT and v == "char")]
+
+
+def _opt_inner():
+    return [v for v in OPT_INNER if not (FFI_STRICT and v == "char")]
+
+
 INTO_PAIRS = [("u64", "u32"), ("u64", "u8"), ("u32", "u16"), ("i64", "i32"), ("f64", "f32"), ("usize", "u8"), ("u64", "u64")]
 
 
@@ -457,9 +470,9 @@ class ARawPtr(Arg):
 def gen_arg(rng, i):
     k = rng.random()
     if k < 0.22:
-        return AVal(i, rng.choice(VALS))
+        return AVal(i, rng.choice(_vals()))
     if k < 0.30:
-        return ARef(i, rng.choice(VALS))
+        return ARef(i, rng.choice(_vals()))
     if k < 0.38:
         return AMutRef(i, rng.choice(["u8", "u32", "u64", "i16", "Pod1", "f64", "bool"]))
     if k < 0.50:
@@ -471,7 +484,7 @@ def gen_arg(rng, i):
     if k < 0.72:
         return AOptRef(i, rng.choice(["u8", "u64", "Pod1", "usize"]))
     if k < 0.80:
-        return AOpt(i, rng.choice(OPT_INNER))
+        return AOpt(i, rng.choice(_opt_inner()))
     if k < 0.85:
         return ARes(i, rng.choice(["u8", "u64", "Pod1", "i32"]), rng.choice(["u8", "i32", "u64", "bool"]))
     if k < 0.90:
@@ -753,9 +766,9 @@ def gen_ret(rng, recv_mut, consuming, allow_child=True):
         if k < 0.15:
             return RUnit()
         if k < 0.55:
-            return RVal(rng.choice(VALS))
+            return RVal(rng.choice(_vals()))
         if k < 0.70:
-            return ROpt(rng.choice(OPT_INNER))
+            return ROpt(rng.choice(_opt_inner()))
         if k < 0.80:
             return RRes(rng.choice(["u8", "u64", "Pod1"]), rng.choice(["u8", "i32", "bool"]))
         if k < 0.90:
@@ -764,7 +777,7 @@ def gen_ret(rng, recv_mut, consuming, allow_child=True):
     if k < 0.10:
         return RUnit()
     if k < 0.30:
-        return RVal(rng.choice(VALS))
+        return RVal(rng.choice(_vals()))
     if k < 0.47:
         return RBorrow(rng.choice(["str", "bytes", "words", "pods", "one", "pod"]))
     if k < 0.53 and recv_mut:
@@ -772,13 +785,13 @@ def gen_ret(rng, recv_mut, consuming, allow_child=True):
     if k < 0.57:
         return ROptRef()
     if k < 0.66:
-        return ROpt(rng.choice(OPT_INNER))
+        return ROpt(rng.choice(_opt_inner()))
     if k < 0.74:
         return RRes(rng.choice(["u8", "u64", "Pod1", "i32"]), rng.choice(["u8", "i32", "u64", "bool"]))
     if k < 0.84:
         return RIntRes(rng.choice(["u64", "u8", "Pod1", "()", "i16"]), rng.choice(["io", "unit", "UErr"]))
     if not allow_child:
-        return RVal(rng.choice(VALS))
+        return RVal(rng.choice(_vals()))
     if k < 0.90:
         return RChild("owned", rng.random() < 0.4)
     if k < 0.94:
@@ -799,6 +812,9 @@ class Method:
         self.idx, self.name, self.recv, self.args, self.ret = idx, name, recv, args, ret
         self.extern_c, self.unsafe = extern_c, unsafe
         self.attrs = []
+        self.default_body = False   # the trait provides a body
+        self.overridden = True      # the implementor provides its own body
+        self.where_sized = False    # `where Self: Sized` on the method
 
     def mutating(self):
         return self.recv in ("mut", "pinmut")
@@ -826,10 +842,27 @@ class Method:
         recv = self.recv_txt(lt)
         if impl and self.recv == "own":
             recv = "self"
-        return f"{self.qual()}fn {self.name}{gen}({recv}{args}){self.ret.ty(lt)}"
+        wh = " where Self: Sized" if self.where_sized else ""
+        return f"{self.qual()}fn {self.name}{gen}({recv}{args}){self.ret.ty(lt)}{wh}"
+
+    def default_expr(self):
+        """body of the provided (default) method: a constant of the return type, independent of self"""
+        uses = " ".join(f"let _ = &{a.n};" for a in self.args)
+        if isinstance(self.ret, RUnit):
+            return f"{{ {uses} }}"
+        if isinstance(self.ret, RVal):
+            return f"{{ {uses} pbsupport::gen::<{self.ret.t}>(0xDEFA) }}"
+        if isinstance(self.ret, ROpt):
+            return f"{{ {uses} pbsupport::gen::<Option<{self.ret.t}>>(0xDEFB) }}"
+        if isinstance(self.ret, RRes):
+            return f"{{ {uses} pbsupport::gen::<Result<{self.ret.a}, {self.ret.b}>>(0xDEFC) }}"
+        raise ValueError("no default body for this return shape")
 
     def describe(self):
-        return f"{self.qual()}fn {self.name}({self.recv}; {', '.join(a.desc() for a in self.args)}){self.ret.ty('')}"
+        extra = ""
+        if self.default_body:
+            extra = " [provided" + (", overridden" if self.overridden else ", not overridden") + (", where Self: Sized" if self.where_sized else "") + "]"
+        return f"{self.qual()}fn {self.name}({self.recv}; {', '.join(a.desc() for a in self.args)}){self.ret.ty('')}{extra}"
 
 
 class Trait:
@@ -903,8 +936,17 @@ def gen_trait(rng, name, prefix, max_methods=5, allow_child=True):
                 used_assoc[ret.assoc[0]] = ret.assoc
         m = Method(j, f"{prefix}_{j}", recv, args, ret,
                    extern_c=rng.random() < 0.12, unsafe=rng.random() < 0.08)
-        if m.extern_c and any(isinstance(a, AInto) for a in m.args):
-            m.extern_c = False  # impl Trait arguments are not allowed in extern fns by rustc itself
+        # a method the *user* declares extern "C" must have a C-safe signature to begin with
+        # (otherwise rustc's lint fires on the user's own trait, not on generated code)
+        plain_arg = lambda a: isinstance(a, (AVal, ARef, AMutRef, ARawPtr)) and getattr(a, "t", "") != "char"
+        plain_ret = isinstance(ret, RUnit) or (isinstance(ret, RVal) and ret.t != "char") or (isinstance(ret, RBorrow) and ret.kind in ("one", "pod"))
+        if m.extern_c and not (all(plain_arg(a) for a in m.args) and plain_ret):
+            m.extern_c = False
+        # provided methods (default bodies), optionally further bounded, optionally overridden
+        if isinstance(ret, (RUnit, RVal, ROpt, RRes)) and recv != "own" and not any(isinstance(a, (AInto, ACallback, AIter)) for a in args) and rng.random() < 0.22:
+            m.default_body = True
+            m.overridden = rng.random() < 0.75
+            m.where_sized = rng.random() < 0.5
         # int_result attribute logic
         if ret.int_result is True and not int_result:
             m.attrs.append("#[int_result]")
